@@ -134,6 +134,10 @@ type loopTr struct {
 	tmpN   int
 	optLoop int // nesting depth of loops that can be left by an error return
 	labelPrefix string
+	preVars map[string]lty // variables in scope at function entry besides the parameters
+	curIV   string         // innermost loop variable
+	recv    func(iv string) string // translation of a channel receive inside the loop over `iv`
+	recvTy  lty
 }
 
 func goType(e ast.Expr) (lty, bool) {
@@ -156,7 +160,7 @@ func goType(e ast.Expr) (lty, bool) {
 		return tListK, true
 	case "[]uint8":
 		return tListInt, true
-	case "[][]fr.Element":
+	case "[][]fr.Element", "[common.VectorLength][]fr.Element":
 		return tListListK, true
 	case "*common.Transcript":
 		return tTr, true
@@ -174,6 +178,12 @@ func (t *loopTr) typeOf(e ast.Expr) lty {
 		}
 		if x.Op == token.NOT {
 			return tBool
+		}
+		if x.Op == token.ARROW {
+			if t.recv == nil {
+				die("loops: %s: channel receive outside a goroutine translation", t.cur.name)
+			}
+			return t.recvTy
 		}
 		return t.typeOf(x.X)
 	case *ast.StarExpr:
@@ -348,6 +358,14 @@ func (t *loopTr) condExpr(e ast.Expr) string {
 		}
 	case *ast.BinaryExpr:
 		op := map[token.Token]string{token.LSS: "<", token.GTR: ">", token.LEQ: "≤", token.GEQ: "≥", token.EQL: "=", token.NEQ: "≠"}[x.Op]
+		if (x.Op == token.EQL || x.Op == token.NEQ) && exprStr(x.Y) == "nil" {
+			// a nil slice is the empty list (the translated functions never build an empty non-nil slice)
+			switch t.typeOf(x.X) {
+			case tListK, tListG, tListBool, tListInt, tListListK:
+				return "(" + t.valExpr(x.X) + " " + op + " [])"
+			}
+			die("loops: %s: comparison of a non-slice with nil", t.cur.name)
+		}
 		if op != "" {
 			return "(" + t.intExpr(x.X) + " " + op + " " + t.intExpr(x.Y) + ")"
 		}
@@ -442,6 +460,12 @@ func (t *loopTr) valExpr(e ast.Expr) string {
 		}
 		if x.Op == token.NOT {
 			return "(decide " + t.condExpr(e) + ")"
+		}
+		if x.Op == token.ARROW {
+			if t.recv == nil || t.curIV == "" {
+				die("loops: %s: channel receive outside a goroutine translation", t.cur.name)
+			}
+			return t.recv(t.curIV)
 		}
 	case *ast.StarExpr:
 		return t.valExpr(x.X)
@@ -695,6 +719,16 @@ func (t *loopTr) assign(ind string, lhs ast.Expr, v string, define bool, vty lty
 		}
 		fmt.Fprintf(t.sb, "%slet %s : %s := %s\n", ind, x.Name, ty.lean(), v)
 	case *ast.IndexExpr:
+		if in, ok := x.X.(*ast.IndexExpr); ok {
+			// `a[i][j] = v`  ==  `a[i] = (a[i] with [j] = v)`
+			b, ok := in.X.(*ast.Ident)
+			if !ok || t.vars[b.Name] != tListListK {
+				die("loops: %s: unsupported lvalue %s", t.cur.name, exprStr(lhs))
+			}
+			row := "(Loop.get " + b.Name + " " + t.intExpr(in.Index) + " [])"
+			fmt.Fprintf(t.sb, "%slet %s : %s := Loop.set %s %s (Loop.set %s %s (%s))\n", ind, b.Name, t.vars[b.Name].lean(), b.Name, t.intExpr(in.Index), row, t.intExpr(x.Index), v)
+			return
+		}
 		b, ok := x.X.(*ast.Ident)
 		if !ok {
 			die("loops: %s: unsupported lvalue %s", t.cur.name, exprStr(lhs))
@@ -741,7 +775,16 @@ func (t *loopTr) block(ind string, stmts []ast.Stmt, k string, cont string) {
 						die("loops: %s: unsupported declaration %s", t.cur.name, exprStr(vs.Type))
 					}
 					t.vars[n.Name] = ty
-					fmt.Fprintf(t.sb, "%slet %s : %s := %s\n", ind, n.Name, ty.lean(), ty.zero())
+					zero := ty.zero()
+					if at, ok := vs.Type.(*ast.ArrayType); ok && at.Len != nil {
+						// the zero value of an array has its full length
+						ety, ok := goType(at.Elt)
+						if !ok {
+							die("loops: %s: unsupported array element %s", t.cur.name, exprStr(at.Elt))
+						}
+						zero = "List.replicate (" + t.intExpr(at.Len) + ").toNat (" + ety.zero() + " : " + ety.lean() + ")"
+					}
+					fmt.Fprintf(t.sb, "%slet %s : %s := %s\n", ind, n.Name, ty.lean(), zero)
 				}
 			}
 		case *ast.AssignStmt:
@@ -1171,6 +1214,9 @@ func (t *loopTr) forLoop(ind string, f *ast.ForStmt, rest []ast.Stmt, k string, 
 		die("loops: %s: unsupported loop header", t.cur.name)
 	}
 	iv := init.Lhs[0].(*ast.Ident).Name
+	prevIV := t.curIV
+	t.curIV = iv
+	defer func() { t.curIV = prevIV }()
 	cond, ok := f.Cond.(*ast.BinaryExpr)
 	post, ok2 := f.Post.(*ast.IncDecStmt)
 	if !ok || !ok2 || exprStr(cond.X) != iv || exprStr(post.X) != iv {
@@ -1259,6 +1305,11 @@ func (t *loopTr) fn(file *ast.File, goName string, leanName string, proto bool) 
 	if fd == nil {
 		die("loops: function %s not found", goName)
 	}
+	t.fnDecl(fd, goName, leanName, proto)
+}
+
+// translate a function declaration (of the source, or synthesised from a goroutine closure)
+func (t *loopTr) fnDecl(fd *ast.FuncDecl, goName string, leanName string, proto bool) {
 	// Go identifiers that are Lean keywords get a trailing underscore
 	ast.Inspect(fd, func(n ast.Node) bool {
 		if id, ok := n.(*ast.Ident); ok && leanReserved[id.Name] {
@@ -1268,6 +1319,9 @@ func (t *loopTr) fn(file *ast.File, goName string, leanName string, proto bool) 
 	})
 	f := &loopFn{name: leanName}
 	t.vars = map[string]lty{}
+	for k, v := range t.preVars {
+		t.vars[k] = v
+	}
 	if fd.Recv != nil && len(fd.Recv.List) == 1 && len(fd.Recv.List[0].Names) == 1 {
 		rt := exprStr(fd.Recv.List[0].Type)
 		if rt != "*PrecomputedWeights" {
@@ -1458,6 +1512,7 @@ func translateLoops(repo string, write func(name, imports, content string)) {
 	t.consts["VectorLength"] = lit.Value
 	t.sb.WriteString("\nsection\nvariable {K G : Type} [Zero K] [One K] [Add K] [Sub K] [Mul K] [Neg K] [Inv K] [NatCast K] [DecidableEq K]\nvariable [Zero G] [Add G] [Sub G] [SMul K G]\n\n")
 	t.fn(mp, "domainToFr", "domainToFr", false)
+	t.goroutineFn(mp, "groupPolynomialsByEvaluationPoint", "groupPolynomialsByEvaluationPoint")
 	t.fn(mp, "CheckMultiProof", "checkMultiProof", true)
 	t.fn(mp, "CreateMultiProof", "createMultiProof", true)
 	t.sb.WriteString("end\n\n")
